@@ -67,6 +67,16 @@ def execute(facet, case):
     try:
         with quiet(), WATCHDOG.guard(common.WATCHDOG_SECONDS):
             info = facet.run(case)
+    except (Violation, Inconclusive, HarnessError, _AbortShrink):
+        raise
+    except Exception as e:
+        # The harness could not interpret what the code under test did (an attribute, type or value it relies on is not what
+        # every run on the reference tree produced). On the unchanged tree this never happens (multi-seed sweeps); it is
+        # reported as a violation of the property's "behaves as specified / never raises" clauses rather than swallowed.
+        tb = traceback.extract_tb(e.__traceback__)
+        where = next((f"{os.path.basename(f.filename)}:{f.name}" for f in reversed(tb)), "?")
+        raise Violation("unexpected_behaviour", f"{type(e).__name__}({e}) while judging the case (innermost frame {where})",
+                        f"unexpected/{type(e).__name__}@{where}")
     except WatchdogTrip:
         raise Violation("nontermination", "CPU watchdog: an element spun >= %gs inside one case without "
                         "finishing (simulation can never run out of events)" % common.WATCHDOG_SECONDS,
